@@ -78,6 +78,14 @@ func Load(repo string) (*Program, error) {
 		}
 		P.AllFuncs = append(P.AllFuncs, fn)
 		if fn.Parent() != nil {
+			// closure literal: parentKey$N  (N as in go/ssa)
+			top := fn
+			for top.Parent() != nil {
+				top = top.Parent()
+			}
+			if i := strings.IndexByte(fn.Name(), '$'); i >= 0 {
+				P.Funcs[funcKey(top)+fn.Name()[i:]] = fn
+			}
 			continue
 		}
 		P.Funcs[funcKey(fn)] = fn
